@@ -211,7 +211,9 @@ Proof.
   - unfold const_entries, k_ix_ext, k_ix_market, k_ix_owner, k_ix_asset in Hc. cbn [In] in Hc.
     destruct Hc as [Hc|[Hc|[Hc|[]]]]; inversion Hc.
   - unfold ext_entries in He. destruct (od_ext o1) as [|f0 fr] eqn:Eext1; cbn [is_nil In] in He;
-      [destruct He|]. destruct He as [He|[]]. inversion He as [[Hkey Hv]].
+      [destruct He|]. destruct He as [He|[]].
+    pose proof (f_equal fst He) as Hkey. pose proof (f_equal snd He) as Hv.
+    cbn [fst snd] in Hkey, Hv. clear He. subst v.
     assert (Hid : od_id o1 = od_id o).
     { apply (Hu k1 o1 k o).
       - rewrite Et. apply in_or_app. left. exact Hin1.
@@ -317,7 +319,9 @@ Proof.
   assert (E6 : xg_last_market g = xs_last_market s) by (subst g; reflexivity).
   assert (E7 : xg_params g = params_export (xs_params s)) by (subst g; reflexivity).
   unfold exch_import. rewrite Hh, E1, E2, E3, E4, E5, E6, E7.
-  rewrite (markets_import_from (xs_markets s) [] 0%N Hms Hmf). cbn [app].
+  match goal with |- context [fold_left market_step ?l ?a] =>
+    replace (fold_left market_step l a) with (Some (0%N, xs_markets s))
+      by (symmetry; exact (markets_import_from (xs_markets s) [] 0%N Hms Hmf)) end.
   rewrite (orders_import_export (xs_orders s) Hos).
   2:{ eapply Forall_impl; [|exact Hof]. intros kr (H1 & H2 & H3 & _). repeat split; assumption. }
   2:{ exact Hou. }
